@@ -28,6 +28,15 @@ from .engines import Engine, register
 from .runner import Outcome, import_fresh_bisturi
 from . import project, decls
 
+import enum
+
+
+class Kind(enum.IntEnum):
+    ONE = 1
+    TWO = 2
+    THREE = 3
+
+
 RAWS_SEEN = {}          # per run (cleared in execute): root class -> raw inputs generated so far
 VALUES_SEEN = {}        # per run: ints / byte strings handed out so far (re-used now and then: equal values)
 WATCHDOG_S = 20.0
@@ -83,8 +92,10 @@ class Env:
             return ("dict",) + tuple(sorted(((repr(k), self.snap(x)) for k, x in v.items())))
         if isinstance(v, (bytearray, set, frozenset)):
             return (type(v).__name__, repr(sorted(v) if not isinstance(v, bytearray) else bytes(v)))
-        if isinstance(v, (bytes, int, str, type(None), bool, float)):
+        if type(v) in (bytes, int, str, type(None), float):
             return v
+        if isinstance(v, (int, float, bytes, str)):
+            return ("%s:%s" % (type(v).__module__.split(".")[-1], type(v).__name__), repr(v))     # bool, IntEnum, subclasses: the type is part of the value
         return "<%s>" % type(v).__name__
 
     def walk_mutables(self, root, acc, rootid, path=()):
@@ -181,6 +192,8 @@ class Env:
             return tuple(self.build(x) for x in spec[1])
         if isinstance(spec, tuple) and spec and spec[0] == "newdict":
             return {k: self.build(x) for k, x in spec[1]}
+        if isinstance(spec, tuple) and spec and spec[0] == "typed-int":
+            return bool(spec[2]) if spec[1] == "bool" else Kind(spec[2])
         return spec
 
 
@@ -224,6 +237,14 @@ def value_spec_like(v, env, ch, u, depth=0):
     if isinstance(v, bool):
         return None
     if isinstance(v, int):
+        odd = ch.weighted("odd-int", [14, 1, 1])
+        if odd == 1:
+            # does not fit most fields: the pack of this packet fails midway (a failed operation is a fault like
+            # any other: whatever it leaves behind must not reach the next operation)
+            return [300, 70000, -1, 1 << 40][ch.draw("unfit-int", 4)]
+        if odd == 2:
+            # an int that is not exactly an int: a bool or an IntEnum member must come back as what was stored
+            return ("typed-int", ["bool", "enum"][ch.draw("int-type", 2)], ch.draw("typed-value", 2) if False else 1 + ch.draw("typed-value", 3))
         bag = VALUES_SEEN.setdefault("int", [])
         if bag and ch.chance("equal-value-again", 1, 5):
             return bag[ch.draw("which-earlier-value", len(bag))]       # an equal value in another packet must stay harmless
@@ -466,6 +487,8 @@ class World:
                 if op[0] == "PARSE" and obs[0] == "PacketError":
                     st["fault:parse-aborted-midway"] += 1
                     self.aborted = True
+                if op[0] in ("PACK", "PACK2", "CONSIST") and obs[0] == "PacketError":
+                    st["fault:pack-failed-midway"] += 1
                 self.check_after(rec, opi, op, obs)
                 if i + 1 < n:
                     a.budget = -1
